@@ -22,41 +22,102 @@ _CORR = ("Residual risk = model != code, measured on every run by the correspond
          "of the property on every implementation answer; trusted base in evidence.coverage.trusted_base.")
 
 
-def _claim(pid, text, technique, partial=False, note=None):
+def _claim(pid, text, technique, note=None, category=None):
     has = bool(THEOREMS.get(pid, (None, []))[1])
-    return dict(category="proof" if has else "exploration", text=text, technique=technique, note=note or _CORR)
+    return dict(category="proof" if has else (category or "exploration"), text=text, technique=technique, note=note or _CORR)
 
 
 CLAIMS = {}
 
 
-def _reg(pid, text, technique, note=None):
-    CLAIMS[pid] = _claim(pid, text, technique, note=note)
+def _reg(pid, text, technique, note=None, category=None):
+    CLAIMS[pid] = _claim(pid, text, technique, note=note, category=category)
 
 
-for _pid in ("C01", "C02", "C03", "C04", "C05", "C06", "C07", "C08", "C09", "C10", "C11", "C12", "C13", "C19"):
-    _reg(_pid,
-         "PROVISIONAL (theorems in progress): executable Lean model of the calculation, validated against the implementation on generated "
-         "inputs (full-answer / projected equality), plus direct evaluation of the property statement on every implementation answer.",
-         "Lean 4 model + differential correspondence + executable specification oracles")
+_M = ("The Lean model is executable; on every run it is compiled and driven with the same generated datasets and requests as a C++ harness "
+      "built (ASan+UBSan) from /repo's working tree, and the canonical answers are compared")
+_O = "the property statement itself is also evaluated on every implementation answer by an independent executable oracle (check/oracles.py)"
 
-_reg("C16", "PROVISIONAL: generated datasets are written as Cap'n Proto cache directories with the repository's own schemas, loaded by the real "
-     "server binary (ASan) behind a scripted walking-router stub, and every HTTP answer is compared with the in-memory calculation on the "
-     "same dataset (direct violation when they differ) and with the Lean model.",
-     "differential: real binary on generated cache files vs in-memory calculation vs Lean model")
-_reg("C18", "PARTIAL proof: index safety of both hour look-ups for every time value and connection list, documented error codes and defaults "
-     "(tables regenerated from the source) are Lean theorems; the transport-level clauses (exactly one response, Content-Length, JSON body, "
-     "classification of generated malformed requests, no crash/hang) are checked over raw sockets against the real ASan binary.",
-     "Lean 4 theorems (index safety, tables) + raw-socket request enumeration against the real binary")
+_reg("C01", "PROOF (full, over the model): Tr.C01 - for every well-formed dataset (WFData: times monotone along a trip, non-negative footpaths, "
+     "self footpath 0), scenario and query, every route the calculation returns is a ValidItinerary (access walk offered by the router, rides of one "
+     "scheduled trip each at scheduled times with boarding/alighting permitted, walks with the footpath's duration, every boarding after the minimum "
+     "wait); Tr.C01_with gives the same for every recalculation of the alternatives search. Proved by a reverse-scan invariant, validity of the "
+     "reconstruction, preservation by the four clean-up rewrites and the emission pass. " + _M + "; " + _O + ".",
+     "Lean 4 theorem (invariant + refinement chain) over a hand-written model + differential correspondence")
+_reg("C02", "PROOF (partial): Tr.C02_partial / Tr.C02_times - every ridden trip is admitted by the scenario, access and egress entries and every transfer "
+     "walk lie within their maxima, the access is accepted no earlier than 0:00 and within max_travel_time back from the requested arrival. NOT proved: "
+     "departure >= requested departure, the forward span bound and the first-waiting cap; these clauses are decided per answer by the oracle "
+     "check_limits. " + _M + ".",
+     "Lean 4 theorem (partial) + differential correspondence + executable oracle for the unproved clauses")
+for _pid, _what in (("C03", "earliest arrival (reference forward solver over all admissible journeys)"),
+                    ("C04", "latest departure (reference backward solver)"),
+                    ("C05", "latest departure for the reported arrival (reference backward solver from the reported arrival)"),
+                    ("C08", "set of reachable stops and earliest alighting time per stop (reference forward solver)"),
+                    ("C09", "set of usable stops and latest ready time per stop (reference backward solver)")):
+    _reg(_pid, "NO THEOREM (optimality proofs not reached; stated in DESIGN 0.1): " + _M + " in full; " + _what + " is recomputed for every generated "
+         "case by an independent brute-force reference and compared with the implementation's answer. This is testing of the property on generated "
+         "inputs, not a proof.",
+         "differential correspondence with the Lean model + reference solver on generated inputs (no theorem)")
+_reg("C06", "PROOF (full, over the model): Tr.C06_totals - the clock chain and every total/identity of the property hold for every journey value the emission pass "
+     "can produce; Tr.C06_route lifts it to every route returned on a well-formed dataset. " + _M + "; " + _O + ".",
+     "Lean 4 theorem over the emission model + differential correspondence")
+_reg("C07", "PROOF (partial): Tr.C07_access - the NO_ACCESS_* trichotomy is returned exactly when the router offers no stop at both ends / origin / destination; "
+     "both reason-to-string switches and the enum order are regenerated from the source and proved total and injective. The NO_SERVICE_* characterisation "
+     "by the data is NOT proved; it is evaluated per answer by the oracle reason_spec. " + _M + ".",
+     "Lean 4 theorem (partial) + regenerated tables + differential correspondence + executable oracle")
+_reg("C10", "PROOF (partial): Tr.C10_alternatives - same success/failure and reason as without alternatives, routes[0] is the plain answer, pairwise distinct "
+     "sorted line lists, at most 50 routes and totalRoutesCalculated >= their number; validity of each further route is Tr.C01_with. 'No better than "
+     "routes[0]' needs the optimality theorems and is decided per answer by the oracle. " + _M + ".",
+     "Lean 4 theorem (partial) + differential correspondence + executable oracle")
+_reg("C11", "PROOF (full, over the model): Tr.C11_answers / Tr.C11_route - route, alternatives and accessibility answers under a restricting scenario equal the answers "
+     "under the all-inclusive scenario on the dataset with the excluded trips removed (filter commutes with both stable sorts; the calculation reads trips only "
+     "through the connection set). " + _M + "; the metamorphic relation is also run on the implementation with physically deleted trips.",
+     "Lean 4 theorem + differential correspondence + metamorphic run on the implementation")
+_reg("C12", "NO THEOREM: the shift relation is evaluated on the implementation (dataset and request shifted by generated offsets inside [0,32h), answers compared "
+     "field by field) and on the Lean model through the correspondence. Testing on generated inputs, not a proof.",
+     "metamorphic relation on implementation and model (no theorem)")
+_reg("C13", "PROOF (full, over the server model): Tr.C13_history_independent - the answer to a request after any sequence of earlier requests equals the answer of the "
+     "initial server, for both cache kinds and whether or not the set was cached; Tr.C13_structure states the source facts it rests on (regenerated: no static state "
+     "in the calculation, cache keyed by scenario). Histories are also replayed against the implementation and the model.",
+     "Lean 4 theorem over the server state machine + regenerated structural facts + history replay")
+_reg("C14", "PROOF (partial by nature): Tr.C14_interleavings - for every schedule of the atomic cache actions (hit / miss / build / set, extracted yield points) and any "
+     "number of threads, every request gets the answer of the idle server and entries in use stay alive (shared ownership); Tr.C14_progress - no schedule blocks. "
+     "Atomicity of the critical sections and the C++ memory model are assumed, not proved: they are observed by driving the real cache through forced schedules "
+     "at the hook points (ASan) and by an unforced ThreadSanitizer soak.",
+     "Lean 4 theorem over an interleaving model + forced-schedule correspondence at hook points + TSan soak")
+_reg("C15", "NO THEOREM for the refresh protocol (no Lean model of /updateCache): the real server binary (ASan+UBSan) is started on generated cache directories, queried, "
+     "the files are replaced, /updateCache is called for every documented combination, and every later answer is compared with a freshly started server on the new files "
+     "and with the Lean calculation model on the new dataset. Exploration of generated histories, not a proof.",
+     "differential: refreshed server vs fresh server vs Lean calculation model (no theorem)")
+_reg("C16", "NO THEOREM for the loader (the byte level of Cap'n Proto is trusted, the field mapping is not modelled in Lean): generated datasets are written as cache directories "
+     "with the repository's own schemas, loaded by the real server binary (ASan+UBSan) behind a scripted walking-router stub; every HTTP answer is compared with the in-memory "
+     "calculation on the same dataset and with the Lean model, and every itinerary is checked against the dataset by the C01 oracle.",
+     "differential: real binary on generated cache files vs in-memory calculation vs Lean model (no theorem)")
+_reg("C17", "NO THEOREM (crash freedom of C++ code on arbitrary bytes is outside what an executable Lean model can exhibit): enumeration of fault classes on generated cache directories "
+     "- each file missing / empty / truncated at generated offsets / bit-flipped / inconsistent with the others (deterministic classes) - against the real ASan+UBSan binary at start-up and "
+     "through /updateCache, with probes that the server then serves what it loaded or answers data_error naming the missing kind.",
+     "fault enumeration against the real sanitized binary (no theorem)", category="fault_enumeration")
+_reg("C18", "PROOF (partial): Tr.C18_index_safe / Tr.C18_forward_guard - both hour look-ups are in range for every integer time and every connection list; documented error codes, "
+     "defaults and /updateCache names are regenerated from the source and proved to match the documentation tables. The transport clauses (exactly one response, Content-Length, JSON body, "
+     "classification of generated malformed requests, no crash or hang) are observed over raw sockets against the real ASan+UBSan binary.",
+     "Lean 4 theorems (index safety, regenerated tables) + raw-socket request enumeration against the real binary")
+_reg("C19", "PROOF (full, over the model): Tr.C19_summary - nbRoutes, the set of lines and each line's count equal the number of routes, the lines boarded and the boardings per line of the "
+     "/v2/route answer to the same parameters; Tr.C19_handlers_mirror states the regenerated source fact that both handlers run the same calculation. " + _M + " for both endpoints.",
+     "Lean 4 theorem + regenerated structural fact + differential correspondence")
+_reg("C20", "NO THEOREM (socket and process behaviour): the scripted walking-router stub injects each fault of the property (refuse, drop, truncate, error status, empty / non-JSON body, "
+     "no durations, nulls, short table) on generated requests against the real ASan+UBSan binary; each answer must be a well-formed documented response, the process must stay up, "
+     "and after recovery every answer must equal the fault-free answer.",
+     "fault enumeration against the real sanitized binary with a scripted router (no theorem)", category="fault_enumeration")
 
-NOT_APPLICABLE = [
-    {"property_id": p, "reason": "check under construction in this session (HTTP-level / fault / concurrency harness not built yet); not claimed until it runs"}
-    for p in ("C14", "C15", "C17", "C20")
-]
+NOT_APPLICABLE = []
 
 
 def run(pid, tier, seed, replay=None):
-    if pid in ("C16", "C18"):
+    if pid == "C14":
+        from . import conc_checks
+        mod, ths = THEOREMS.get(pid, (None, []))
+        return conc_checks.run_c14(tier, seed, replay, theorems=ths, module=mod)
+    if pid in ("C15", "C16", "C17", "C18", "C20"):
         from . import http_checks
         mod, ths = THEOREMS.get(pid, (None, []))
         return getattr(http_checks, "run_" + pid.lower())(tier, seed, replay, theorems=ths, module=mod)
